@@ -120,6 +120,7 @@ def C02(ctx):
     with ctx.scoped(has('dtw:distance ', 'dtw:distance_fast', 'dtw_ndim:distance', 'dtw:distance_matrix', 'dtw_ndim:distance_matrix', ':distance:', ':distance_fast:')):
         fwd.rule_delegation(ctx, m, ['dtaidistance.dtw', 'dtaidistance.dtw_ndim'])
     tables.rule_pyx_siblings(ctx, m)
+    cshape.rule_ndim_stride(ctx, m, NDIM_FUNCS[:4])
     cshape.rule_variant_callees(ctx, m)
     ctx.floor('R-BAND', 20, '4 C kernels x (lo, hi) x 2 window encodings + rows')
     ctx.floor('R-REC', 32, '4 C kernels x 8 facts')
@@ -164,6 +165,7 @@ def C04(ctx):
     wps.rule_wps_epilogue(ctx, m)
     wps.rule_wps_exits(ctx, m)
     wps.rule_wps_readers(ctx, m, affinity=False)
+    cshape.rule_ndim_stride(ctx, m, NDIM_FUNCS[4:6])
     ctx.floor('R-REC', 6, 'python matrix facts')
 
 
@@ -223,6 +225,8 @@ def C08(ctx):
     tables.rule_psi_asserts(ctx, m)
     from .rules import wps
     wps.rule_wps_bounds(ctx, m, tier=ctx.tier)
+    with ctx.scoped(has('output slot', 'output store', 'pair counter', 'prefix-sum plan', 'row index')):
+        iterspace.rule_omp(ctx, m)      # the parallel regions write output[slot]: the slot arithmetic bounds the write
     ctx.floor('R-ALLOC', 20, 'C + pyx allocation sites')
     ctx.floor('R-STRIDE', 60, 'n-D subscripts')
 
@@ -256,7 +260,7 @@ def C10(ctx):
     m = model(ctx.repo)
     for F in _kernels(ctx, m):
         _py_distance_rules(ctx, m, F, ['band'])
-        with ctx.scoped(has('penalty symmetric', 'DP predecessors', 'max_step guard')):
+        with ctx.scoped(has('penalty symmetric', 'DP predecessors', 'max_step guard', 'row reset')):
             kern.rule_recurrence(ctx, F)
         with ctx.scoped(has('psi')):
             kern.rule_psi(ctx, F)
@@ -298,6 +302,7 @@ def C12(ctx):
         sig.rule_pyx_to_c(ctx, m)
         sig.rule_py_to_pyx(ctx, m, ['dtaidistance.dtw_barycenter'])
         cshape.rule_c_no_input_stores(ctx, m)
+    fwd.rule_delegation(ctx, m, ['dtaidistance.dtw_barycenter'])
     ctx.floor('R-PATH', 12, 'C + Python DBA path rules')
 
 
@@ -344,6 +349,8 @@ def C17(ctx):
     kern2d.rule_rec_nw(ctx, F)
     kern.rule_length_diff_exit(ctx, F.name, F.file, F.prologue.events, F.amap, F.outer_line)
     pyshape.rule_alignment_tables(ctx, m)
+    pyshape.rule_nw_border(ctx, m)
+    pyshape.rule_dp_empty_row(ctx, m)
     misc.rule_return_arity(ctx, m, [('dtaidistance.dp', 'dp'), ('dtaidistance.alignment', 'needleman_wunsch')])
     ctx.floor('R-REC', 2, 'dp scheme')
 
@@ -372,6 +379,8 @@ def C19(ctx):
     misc.rule_dispatch(ctx, m, 'dtaidistance.similarity', 'squash', 'method')
     from .rules import mon
     mon.rule_similarity(ctx, m)
+    mon.rule_squash_zero_offset(ctx, m)
+    mon.rule_cover_quantile(ctx, m)
 
 
 def C20(ctx):
